@@ -4,7 +4,7 @@ Hdl21 Parameters and Param-Classes
 
 # Std-Lib Imports
 import dataclasses, inspect, json, hashlib
-from typing import Optional, Any, Type, TypeVar, Dict
+from typing import Optional, Any, Type, TypeVar, Dict, Union
 
 # PyPi Imports
 import pydantic
@@ -224,7 +224,7 @@ def _unique_name(params: Any) -> str:
     if all_scalar:
         # Format: `pname1=pval1 pname2=pval2 pname3=pval3`
         keys = params.__params__.keys()
-        name = " ".join(f"{k}={str(getattr(params, k))}" for k in keys)
+        name = " ".join(f"{k}={_scalar_name(getattr(params, k))}" for k in keys)
 
         # These names must also be limited in length, for sake of our favorite output formats.
         # If the generated name is too long, use the hashing method below instead
@@ -249,6 +249,16 @@ def _unique_name(params: Any) -> str:
     h.update(data)
     # And return the (hex) digest as our unique name
     return h.hexdigest()
+
+
+def _scalar_name(val: Union[str, int, float, None]) -> str:
+    """Format scalar parameter-value `val` for inclusion in a readable unique name.
+    Strings are quoted, with their quotes and backslashes escaped, so that values which include
+    spaces or equals-signs cannot be confused with the surrounding `name=value` pairs,
+    and so that strings differ from same-looking numbers and `None`."""
+    if isinstance(val, str):
+        return '"' + val.replace("\\", "\\\\").replace('"', '\\"') + '"'
+    return str(val)
 
 
 def hdl21_naming_encoder(obj: Any) -> Any:
